@@ -129,6 +129,8 @@ LockKind(pk) == pk \in {PKLock, PKTabLock}
 FsRemove(h, p, pk) ==
   /\ dir' = DirDel(p)
   /\ viol' = viol \cup FlagIf(LockKind(pk) /\ Ino(p).creator # h, "C08_OwnerOnly")
+                  \* C16: Close and Clean remove only stale files - not the lock of a process that is alive
+                  \cup FlagIf(LockKind(pk) /\ Ino(p).creator # h /\ Ino(p).creator \notin crashed /\ pending[h].op \in {"clean", "close", "reopen"}, "C16_GcRemovesLive")
                   \cup FlagIf(pk = PKTab /\ p \in Range(ListNames), "C05_NoGcOfListed")
                   \* ... in particular by a handle whose last reading of tables.list is out of date (C09: a stale handle leaves the directory alone)
                   \cup FlagIf(pk = PKTab /\ p \in Range(ListNames) /\ lastRead[h] # ListNames, "C09_StaleRemovesListed")
@@ -242,5 +244,5 @@ C16_QuiescentDir ==
   ((\A h \in DOMAIN pending : Idle(h)) /\ crashed = {}) =>
      DOMAIN dir = Range(ListNames) \cup (IF Exists(LIST) THEN {LIST} ELSE {})
 (* Close and Clean succeed on any stack (contention for the lock aside) *)
-C16_GcSucceeds == "C16_GcFailed" \notin viol
+C16_GcSucceeds == viol \cap {"C16_GcFailed", "C16_GcRemovesLive"} = {}
 =============================================================================
